@@ -1877,6 +1877,23 @@ def method(fr, base, name, args, kw, n):
                     if I.decide(eq(fr, cand, args[0], n), f"index:{n.lineno}"):
                         return k
                 raise PathRaise("ValueError", "x not in list")
+            if name in ("count", "remove") and args and (deep_abs(args[0]) or any(deep_abs(e) for e in base)):
+                # python would compare the abstract objects by identity: decided element by element instead
+                hits = []
+                for k, e in enumerate(base):
+                    t = eq(fr, e, args[0], n)
+                    if t is True or (t is not False and I.decide(t, f"{name}:{n.lineno}")):
+                        hits.append(k)
+                        if name == "remove":
+                            break
+                if name == "count":
+                    return len(hits)
+                if not hits:
+                    raise PathRaise("ValueError", "list.remove(x): x not in list")
+                del base[hits[0]]
+                return None
+            if name == "sort" and any(deep_abs(e) for e in base):
+                raise Abort(f"sorting a list of abstract values at {fr.fi.module.relpath}:{n.lineno}")
             if name == "extend":
                 base.extend(fr.iterate(args[0], n))
                 return None
